@@ -42,6 +42,11 @@ def run(ctx):
         nd = rng.randint(1, 4)
         kind = rng.choice([None, "alpha", "dyadic", "neg"])
         s1, s2 = np.array(gen.series_nd(rng, r, nd, kind)), np.array(gen.series_nd(rng, c, nd, kind))
+        if rng.random() < 0.06:
+            off_ = rng.choice([1.7e9, 3.0e8, 5.0e6])      # a channel with a large common offset
+            s1 = s1 + np.array([off_] + [0.0] * (nd - 1))
+            s2 = s2 + np.array([off_] + [0.0] * (nd - 1))
+            ctx.count("cases_with_large_offset")
         kw = gen.rand_settings(rng, r, c, with_mld=False)
         ctx.count("cases")
         # distance: Python (oracle) and C (differential)
@@ -94,8 +99,11 @@ def run(ctx):
                                   inner_dist=inner_)
         # matrices and paths (monitors of C04 / C05, labelled by this property through the run)
         kw2 = {k: v for k, v in kw.items() if k != "max_step"}
+        kw4 = dict(kw)
+        if dtwmon.valid_ub_domain(kw, r, c) and rng.random() < 0.3:
+            kw4["use_pruning"] = True        # the multivariate bound inside the cost-matrix kernels
         with monitors.quiet():
-            C04.one(ctx, dtw, dtw_cc, np, s1, s2, kw, psi_neg=rng.random() < 0.5, keep=rng.random() < 0.3, nd=nd)
+            C04.one(ctx, dtw, dtw_cc, np, s1, s2, kw4, psi_neg=rng.random() < 0.5, keep=rng.random() < 0.3, nd=nd)
             C05.one(ctx, mods, np, s1, s2, kw2, nd)
         # d = 1 reduction
         if nd == 1:
